@@ -53,6 +53,7 @@ type fakeAPI struct {
 	r       *rand.Rand
 	fail    int      // one in `fail` operations fails (0 = never)
 	arrived []string // values of the writes that have reached the service
+	refused map[string]bool // values of the writes the service answered with an error
 }
 
 func (f *fakeAPI) jitter() (time.Duration, time.Duration, bool) {
@@ -92,6 +93,12 @@ func (f *fakeAPI) Propose(ctx context.Context, p *mr.RaftProposal) (*mr.RaftResp
 	}
 	time.Sleep(after)
 	if failed {
+		f.mu.Lock()
+		if f.refused == nil {
+			f.refused = map[string]bool{}
+		}
+		f.refused[k.Val] = true
+		f.mu.Unlock()
 		return nil, errors.New("injected failure")
 	}
 	return &mr.RaftResponse{Result: uint64(len(p.Data))}, nil
@@ -410,6 +417,21 @@ func main() {
 		}
 		evs := c.VerifEvents()
 		totalEv += len(evs)
+		// the recorded outcome of an operation is the outcome its caller saw: a write the service answered with an error
+		// is not in the history as completed (the checker would take it as applied before its return)
+		api.mu.Lock()
+		for _, e := range evs {
+			if e.Type == 1 && e.Result != 0 && api.refused[fmt.Sprint(e.Value)] {
+				run.Count("c07:refused_write_outcome_checked")
+				if e.Result == 1 {
+					run.Violate(hx.Violation{Property: "C07", Clause: "outcome_recorded_faithfully", Signature: "failed-write-recorded-as-completed", Seq: n,
+						What: fmt.Sprintf("the write of %d by process %d was answered with an error by the register service and is in the history as completed", e.Value, e.ID),
+						Ops:  []string{fmt.Sprintf("coordinator run %d (failure rate 1/%d): Propose(%d) answered \"injected failure\"; recorded event {type write, process %d, result ok}", n, api.fail, e.Value, e.ID)}})
+					break
+				}
+			}
+		}
+		api.mu.Unlock()
 		run.Add("c07:recorded_events", len(evs))
 		run.Count(fmt.Sprintf("case:coordinator_run_failrate_%d", api.fail))
 		run.Nontrivial(fmt.Sprintf("run%d", n))
